@@ -77,6 +77,14 @@ def mutations(rng, tok, key, wrap, enc, pool, pt):
             yield ("encrypted_key char %d" % i, dict(tok, encrypted_key=flip_char(ek, i)), key, False)
         yield ("encrypted_key truncated", dict(tok, encrypted_key=ek[:-4]), key, False)
         yield ("encrypted_key absent", {k: v for k, v in tok.items() if k != "encrypted_key"}, key, False)
+    if isinstance(ek, str) and ek:
+        for v in ("", 5, [], None):
+            yield ("encrypted_key replaced by %r" % (v,), dict(tok, encrypted_key=v), key, False)
+    else:
+        # direct encryption / direct key agreement: the encrypted key is the empty octet sequence (RFC 7516 5.2 step 10);
+        # "any change to the recipient's encrypted key" is a change to that
+        for v in ("AAAA", "QQ", b64u(bytes(16))):
+            yield ("encrypted_key of a direct recipient set to %r" % v, dict(tok, encrypted_key=v), key, False)
     hdr = tok.get("header") or {}
     prot = json.loads(b64d(tok["protected"]))
     if isinstance(hdr.get("epk"), dict):
